@@ -64,9 +64,9 @@ H("twin_cur_advance_by", CUR, ["C03", "C19"], tier="quick", cfgs=("debug", "node
 # ---------------------------------------------------------------------------------------------
 # buffer.rs
 SH = ["shadow buffer: none (real WorkTokenizedBuffer / TokenizedBuffer methods)"]
-H("buf_refines_shadow_mutators", BUF, ["C02", "C07", "C04", "C01"], bound="2 tokens, 2 lines, 2 literal bytes (contents symbolic); add_token/add_line/add_string_literal/rollback with symbolic arguments",
+H("buf_refines_shadow_mutators", BUF, ["C01", "C02", "C03", "C04", "C06", "C07", "C09", "C10", "C11", "C13", "C14", "C15"], bound="2 tokens, 2 lines, 2 literal bytes (contents symbolic); add_token/add_line/add_string_literal/rollback with symbolic arguments",
   funcs=["WorkTokenizedBuffer::add_token", "WorkTokenizedBuffer::add_line", "WorkTokenizedBuffer::add_string_literal", "WorkTokenizedBuffer::rollback"], timeout=900, mem=10)
-H("buf_refines_shadow_observers", BUF, ["C02", "C15", "C01"], bound="3 tokens, 2 lines, 1 literal byte",
+H("buf_refines_shadow_observers", BUF, ["C01", "C02", "C03", "C04", "C06", "C07", "C09", "C10", "C11", "C13", "C14", "C15"], bound="3 tokens, 2 lines, 1 literal byte",
   funcs=["WorkTokenizedBuffer::last_line", "WorkTokenizedBuffer::last_token", "WorkTokenizedBuffer::last_token_info", "WorkTokenizedBuffer::last_token_info_on_default_channel", "WorkTokenizedBuffer::checkpoint", "WorkTokenizedBuffer::line_count", "WorkTokenizedBuffer::token_count"], timeout=900, mem=10)
 H("buf_refines_shadow_insert", BUF, ["C02", "C18"], cfgs=("macro_sep",), bound="3 tokens, 2 lines; insert index and token symbolic",
   funcs=["WorkTokenizedBuffer::insert_token", "WorkTokenizedBuffer::iter_token_infos"], timeout=900, mem=12)
@@ -81,7 +81,7 @@ H("twin_buf_bulk_vs_accessors", BUF, ["C05"], expect="twin", bound="n2", funcs=[
 H("buf_line_col_vs_text_k3", BUF, ["C04", "C17", "C02", "C03"], bound="text of <= 3 code points (UTF-8 length and line-feed flag symbolic), optional BOM, 2 symbolic cut points", funcs=["TokenizedBuffer::get_token_start_line", "TokenizedBuffer::get_token_end_line", "TokenizedBuffer::get_token_start_column", "TokenizedBuffer::get_token_end_column", "TokenizedBuffer::line_count"], timeout=600, mem=8)
 H("buf_line_col_vs_text_k5", BUF, ["C04", "C17", "C02", "C03"], bound="text of <= 5 code points", funcs=["TokenizedBuffer::get_token_*line*", "TokenizedBuffer::get_token_*column*"], timeout=900, mem=8)
 H("buf_into_detached", BUF, ["C02", "C03", "C04"], bound="fixed 3-char multi-byte source; line/EOF presence symbolic", funcs=["WorkTokenizedBuffer::into_detached"], timeout=300, mem=6)
-H("buf_checkpoint_rollback", BUF, ["C02", "C04", "C07", "C01", "C09"], bound="2 tokens, 2 lines, 2 literal bytes + symbolic speculative additions", funcs=["WorkTokenizedBuffer::checkpoint", "WorkTokenizedBuffer::rollback"], timeout=600, mem=8)
+H("buf_checkpoint_rollback", BUF, ["C01", "C02", "C03", "C04", "C06", "C07", "C09", "C10", "C11", "C13", "C14", "C15"], bound="2 tokens, 2 lines, 2 literal bytes + symbolic speculative additions", funcs=["WorkTokenizedBuffer::checkpoint", "WorkTokenizedBuffer::rollback"], timeout=600, mem=8)
 
 # ---------------------------------------------------------------------------------------------
 # lexer.rs (mod.rs) — lexer-level harnesses use the shadow buffer and the deterministic XID stand-ins
@@ -290,9 +290,9 @@ def cost(h):
 # properties for which a quick harness is primary (always selected); prefix match on the harness name
 PRIMARY = [
     ("cur_", ["C03"]), ("cur_advance_by", ["C03", "C19"]), ("twin_cur", ["C03", "C19"]),
-    ("buf_refines_shadow_mutators", ["C02", "C07", "C04", "C01"]), ("buf_refines_shadow_observers", ["C02", "C15", "C01"]), ("buf_refines_shadow_insert", ["C02", "C18"]),
+    ("buf_refines_shadow_mutators", None), ("buf_refines_shadow_observers", None), ("buf_refines_shadow_insert", ["C02", "C18"]),
     ("buf_add_token_nightly", ["C19", "C02"]), ("buf_bulk_vs_accessors", ["C05", "C17"]), ("twin_buf", ["C05"]), ("buf_accessors_total", ["C02", "C03", "C04"]),
-    ("buf_line_col_vs_text", ["C04", "C17", "C02", "C03"]), ("buf_into_detached", ["C02", "C03", "C04"]), ("buf_checkpoint_rollback", ["C02", "C04", "C07", "C01", "C09"]),
+    ("buf_line_col_vs_text", ["C04", "C17", "C02", "C03"]), ("buf_into_detached", ["C02", "C03", "C04"]), ("buf_checkpoint_rollback", None),
     ("lx_ws_k2", ["C03"]), ("lx_ws_k3", ["C04", "C06", "C03", "C11"]), ("lx_cstyle_comment_k4", ["C03"]), ("lx_cstyle_comment_k5", ["C04", "C06", "C11"]), ("lx_macro_comment_k4", ["C03"]), ("lx_macro_comment_k5", ["C04", "C06"]),
     ("lx_single_quoted_k3", ["C04", "C11"]), ("lx_single_quoted_k4", ["C07", "C06", "C16"]), ("lx_single_quoted_esc_k5", ["C07", "C16"]),
     ("lx_unrestricted_k2", ["C13", "C06"]), ("lx_str_call_scan_k2", ["C07", "C13"]), ("lx_str_expr_percent_ascii_n3", ["C07"]), ("lx_stat_opts_string_k2", ["C13", "C14"]), ("lx_arg_value_scan_k2", ["C13", "C04"]),
